@@ -185,3 +185,44 @@ func precedes(a, b ssa.Instruction) bool {
 	}
 	return a.Block().Dominates(b.Block())
 }
+
+// innermostLoop returns the innermost natural loop containing b (nil if none).
+func innermostLoop(fn *ssa.Function, b *ssa.BasicBlock) *loopDesc {
+	var inner *loopDesc
+	for _, ld := range loopDescs(fn, topoAll(fn)) {
+		if ld.in[b] && (inner == nil || len(ld.order) < len(inner.order)) {
+			inner = ld
+		}
+	}
+	return inner
+}
+
+// everyIterationReaches: ins lies in a loop and is executed in every iteration that is started:
+// its block dominates every latch of its innermost loop (no `continue` around it) and no block
+// of the loop other than the header leaves the loop before it has run.
+func everyIterationReaches(fn *ssa.Function, ins ssa.Instruction) (bool, string) {
+	b := ins.Block()
+	ld := innermostLoop(fn, b)
+	if ld == nil {
+		return false, "not inside a loop"
+	}
+	for _, p := range ld.header.Preds {
+		if ld.in[p] && isBackEdge(p, ld.header) && !b.Dominates(p) {
+			return false, "an iteration can reach the next one without passing here (continue)"
+		}
+	}
+	for _, x := range ld.order {
+		if x == ld.header {
+			continue
+		}
+		if b.Dominates(x) {
+			continue // leaving after it has run (its own error handling) is fine
+		}
+		for _, su := range x.Succs {
+			if !ld.in[su] {
+				return false, "the loop can be left before it runs (break/return)"
+			}
+		}
+	}
+	return true, ""
+}
